@@ -1,5 +1,6 @@
 import LiteFSVerif.Driver.Util
 import LiteFSVerif.Driver.RWMutexSpecD
+import LiteFSVerif.Driver.CodecSpecD
 
 /-! `specd`: runs only the independent specifications (never imports Gen/ or Model/),
     so it still builds when the regenerated definitions no longer do. -/
@@ -10,6 +11,7 @@ def main (args : List String) : IO UInt32 := do
   let stdout ← IO.getStdout
   match args with
   | ["rwmutex-spec"] => loop stdin stdout RWMutexSpecD.stepSpec []; return 0
+  | ["codec-spec"] => loop stdin stdout CodecSpec.step (); return 0
   | _ =>
     IO.eprintln "usage: specd <suite>"
     return 2
